@@ -34,12 +34,41 @@ def aim_base(rng, row, w, case, fields=('n',)):
         st[gen.bank_key(f['m'], mode)] = rng.choice((0, 1, 2, 3, 4, 8, 0x10, 0x20, M32, M32 - 3, 0xFFFFFFF0, 5))
 
 
+def seed_monitor(rng, row, w, case):
+    """store-exclusive rows on the hooked target (local monitor implemented): a reservation for exactly this access (the store must
+    succeed, write memory, return 0 and clear the monitor), for the same address with another size, for a neighbouring address, or none"""
+    aim_base(rng, row, w, case)
+    if not row.name.startswith('STREX') or not case.get('hooked'):
+        return
+    f = row.extract(w)
+    st = case['state']
+    mode = gen.MODE_NAME[st['cpsr'] & 31]
+    if f['n'] > 14:
+        return
+    size = {'STREX_': 4, 'STREXB': 1, 'STREXH': 2, 'STREXD': 8}[row.name[:6]]
+    k = gen.bank_key(f['n'], mode)
+    if rng.random() < 0.7:
+        st[k] &= ~(size - 1)
+    addr = (st[k] + ((f.get('i', 0) << 2) if row.name == 'STREX_T1' else 0)) & M32
+    r = rng.random()
+    if r < 0.55:
+        st['excl'] = (addr, size)
+    elif r < 0.7:
+        st['excl'] = (addr, rng.choice([x for x in (1, 2, 4, 8) if x != size]))
+    elif r < 0.85:
+        st['excl'] = ((addr + rng.choice((-8, -4, 4, 8, 1))) & M32, size)
+    else:
+        st['excl'] = None
+
+
 def classify(res, case):
     out = []
     M = res.M
     if res.status == 'abort':
         out.append('abort:' + res.detail)
     if res.status == 'ok' and res.cond_passed:
+        if res.pre.get('excl') and not M.s.get('excl') and (res.row or '').startswith('STREX'):
+            out.append('store-exclusive-succeeded')
         if case['state']['cpsr'] & 0x200:
             out.append('big-endian')
         if M.branched:
@@ -53,7 +82,7 @@ def case_kw(rng, row):
     return {'mpu': False, 'mmu': False, 'e': rng.choice((0, 0, 0, 1))}
 
 
-PLAN = e1prop.Plan('C02', ROWS, cfgs=('v6', 'v7', 'v6-nosec', 'v5'), classify=classify, case_kw=case_kw, tweak_case=aim_base,
+PLAN = e1prop.Plan('C02', ROWS, cfgs=('v6', 'v7', 'v6-nosec', 'v5', 'v7-lpae'), classify=classify, case_kw=case_kw, tweak_case=seed_monitor,
                    hooked=(False, False, True))
 
 
